@@ -56,6 +56,26 @@ def random_expr(rng, tags=None):
     return ast, ["--tags=%s" % T.render_v2(ast, rng, rng.choice(["min", "full"]), rng.choice([True, False]))]
 
 
+def texts_under_several_keywords(program):
+    """Step texts of scenarios that occur under more than one of Given / When / Then, with an id ending in 0 (typed definitions)."""
+    seen = {}
+
+    def visit(steps):
+        for st in steps or []:
+            if st["kw"] in ("Given", "When", "Then"):
+                seen.setdefault(st["text"], set()).add(st["kw"])
+
+    def items(c):
+        for it in c["items"]:
+            if it["kind"] == "rule":
+                items(it)
+            else:
+                visit(it.get("steps"))
+    for f in program["features"]:
+        items(f)
+    return sorted(t for t, k in seen.items() if len(k) >= 2 and t.split(" ")[0].endswith("0"))
+
+
 def gen_case(rng, **opts):
     gen_opts = opts.pop("gen", {})
     pg = ProgGen(rng, **gen_opts)
@@ -371,6 +391,14 @@ def check_rollup_live(mon, lab, obs, case=None, prefix="rollup", cleanup_failed=
                 check_container(it, "outline", rows, False)
             else:
                 scen(it)
+        # what the element CONTAINS is what was parsed into it: every rule / scenario / outline of its parse-level lists is one of
+        # the items that run (by identity -- two rules may have the same title)
+        parsed = list(getattr(c, "rules", None) or []) + list(getattr(c, "scenarios", None) or [])
+        missing = [x for x in parsed if not any(x is y for y in c.run_items)]
+        mon.check(prefix + ".everything_parsed_into_the_element_is_among_its_run_items", not missing,
+                  lambda: dict(container=c.name, kind=kind, parsed=[(type(x).__name__, x.name, x.line) for x in parsed],
+                               run_items=[(type(x).__name__, x.name, x.line) for x in c.run_items],
+                               features=(case_texts(case) if case else None)))
         check_container(c, kind, list(c.run_items), c.hook_failed)
 
     for f in (features if features is not None else obs.features):
